@@ -40,7 +40,7 @@ def r1(ctx):
         ctx.check("TearSheetGenerator::generate:" + name, len(cs) == 1, "called exactly once", got=len(cs), key="once")
         for bi, t, term in cs:
             cb = ctx.ibody(term[1])
-            pnames = [cb.locals[i]["name"] for i in range(1, cb.argc + 1)]
+            pnames = [cb.param_name(i) for i in range(1, cb.argc + 1)]
             ctx.check("TearSheetGenerator::generate:" + name, pnames == [p for p, _ in exp], "callee parameter roles",
                       got=pnames, want=[p for p, _ in exp], key="params")
             for i, (pname, w) in enumerate(exp):
@@ -67,7 +67,7 @@ def r2(ctx):
         return
     r = ret[0]
     cb = ctx.ibody(r[1])
-    ctx.check("calculate_pnl_return", [cb.locals[i]["name"] for i in range(1, cb.argc + 1)] ==
+    ctx.check("calculate_pnl_return", [cb.param_name(i) for i in range(1, cb.argc + 1)] ==
               ["pnl_realised", "price_entry_average", "quantity_abs_max"], "parameter roles", key="params")
     eff = common.effects(b, lambda p: atoms.mentions_param(p, "self"))
     seen = {}
